@@ -21,7 +21,7 @@ Proof. split; [exact heu_roundtrip | split; [exact edge_roundtrip | exact print_
 Print Assumptions c08_pred_roundtrip.
 
 (* the three-argument form `_heuristic(a,m,bias)`: the implicit priority is |bias| for every int - 2^31 for INT_MIN (repaired
-   code, /repo f9ecd5c; it was -bias in signed arithmetic) *)
+   code, /repo f51867b; it was -bias in signed arithmetic) *)
 Theorem c08_implicit_prio : forall b, C_INT_MIN <= b <= C_INT_MAX -> implicit_prio b = Z.abs b.
 Proof. exact implicit_prio_abs. Qed.
 Print Assumptions c08_implicit_prio.
